@@ -22,6 +22,8 @@ func init() {
 }
 
 func runC01(c *core.Ctx) {
+	c.Rule("UNIQ", "output column names are made pairwise distinct")
+	checkUniqueNaming(c, "UNIQ")
 	c.Rule("FMTSTR", "printf-style calls have constant format strings")
 	checkFormatStrings(c, "FMTSTR", []string{"outputs", "cmd", "execution", "physical", "logical", "datasources", "functions", "table_valued_functions", "aggregates", "octosql", "helpers"})
 	c.Rule("ORD5L", "ordered emitters use Ascend; DeleteMax only under noRetractionsPossible and only while the tree holds more nodes than the limit")
